@@ -17,6 +17,24 @@ CLAIMED = {
    design="5/C01",
    note="Trusted: spec/Strip.tla (reference = projection of VtParser, checked by MC_StripRef), TLC, pointer-offset observation of returned pieces. Bytes of a malformed UTF-8 character are optional in the output except forbidden controls. Known finding F3 (forbidden byte kept after a malformed character) is reported as KNOWN-FINDING.",
    technique="TLA+ spec (Strip over VtTable/Utf8) + TLC: unbounded product automaton, TLC-generated requirement vectors replayed into the strip APIs, recorded traces validated by TLC"),
+ "C05": dict(
+   level="model_checking",
+   text="TLC checks the SGR model for self-consistency on all 4096 effect sets x a colour lattice (render-by-spec then interpret is the identity; combined = separate sequences). Every style of the quantifier is rendered by the real crate through every public path and a format-flag grid and each rendering is validated by the Trace_StyleRender specification: the bytes, run through the VtParser specification, must be nothing but CSI..m dispatches, the Strip reference must keep none of them, and the strict SGR interpretation from the default rendition must equal the style; the reset form is empty iff plain and returns any rendition to default; all paths and flags must have produced one byte string.",
+   design="5/C05",
+   note="Trusted: spec/Sgr.tla (ECMA-48/xterm SGR semantics, underline kinds as independent flags for rendered output), VtParser, TLC. Quick tier samples RGB components at 19 boundary strata; thorough covers all 256 values per component and slot.",
+   technique="TLA+ spec (Sgr + VtParser + Strip) + TLC trace validation of exhaustive renderings; spec-level round-trip model checking"),
+ "C06": dict(
+   level="model_checking",
+   text="TLC explores the StripStream algorithm against an adversarial inner writer - all inputs of length L x all call cuts x all placements of short writes (0..3) and Interrupted/WouldBlock/Other up to a fault budget - and shows the ideal algorithm keeps delivered = visible(consumed) while each deviation of the code (F4, F5) yields a counterexample. Every behaviour TLC explored is emitted as a script and replayed against a scripted inner writer through write, write_vectored, write_all, write! and argument-less write!; the recorded calls (return value, inner writes by pointer offset, accepted counts) are validated by the Trace_StripStream specification (observational layer I1-I4, judge state carried across calls). Seeded long inputs x random scripts likewise.",
+   design="5/C06",
+   note="Trusted: spec/StripStream.tla over Strip.tla; caller protocol = resubmit tail, retry after Interrupted, stop otherwise. Open findings F5 (state not restored on Err) and F3 are reported as KNOWN-FINDING from their canonical witnesses and tolerated only in the shape described in the spec (Tainting/F5Shape, AcceptCtlLeak).",
+   technique="TLA+ spec (StripStream) + TLC: exhaustive fault-script exploration, TLC-generated scripts replayed into StripStream, recorded calls validated by TLC"),
+ "C08": dict(
+   level="model_checking",
+   text="TLC enumerates every sequence of up to 3 (thorough: 4) write-family calls over fragments that cut escape sequences and characters, checks on the design that strip mode keeps exactly the reference's visible text wherever the calls cut, and emits each sequence with the expected inner-writer content for strip and pass-through mode; these are replayed for the four colour choices over Vec<u8>, Box<dyn Write> and File (content of into_inner, current_choice, to_adapted_string). Seeded random operation mixes x four choices x fault scripts are validated call by call by Trace_AutoStream (strip mode = StripStream's observational layer, pass-through = identity, flush forwarded, into_inner = everything accepted).",
+   design="5/C08",
+   note="Trusted: spec/AutoStream.tla, StripStream.tla, Strip.tla; non-Windows platform (Always = pass-through); environment pinned so that Auto on a non-terminal is Never (the decision itself is C09).",
+   technique="TLA+ spec (AutoStream over StripStream) + TLC: op-sequence enumeration replayed into AutoStream, recorded calls validated by TLC"),
 }
 PENDING_REASON = "check not built yet in this revision of /verif (planned with the TLA+ specification, see DESIGN.md section 5); not claimed until its quick command exists"
 
